@@ -62,8 +62,8 @@ MUTS = [
     ("c05_end_level_without_inflow", "eaopack/assets.py",
      "            b[-1] = self.end_level - self.start_level   - inflow[-1]\n",
      "            b[-1] = self.end_level - self.start_level\n", ["C05", "C02"]),
-    ("c05_fill_level_without_start", "eaopack/assets.py", "fill_level = fill_level.cumsum() + self.start_level",
-     "fill_level = fill_level.cumsum()", ["C05"]),
+    ("c05_fill_level_without_start", "eaopack/assets.py", "        fill_level = fill_level.cumsum() + self.start_level            \n        return fill_level",
+     "        fill_level = fill_level.cumsum()\n        return fill_level", ["C05"]),
     ("c06_min_runtime_short", "eaopack/assets.py", "                for i in range(1, min_runtime):\n                    if i > t:\n                        continue\n                    a = sp.lil_matrix((1, op.A.shape[1]))\n                    a[0, self.on_idx + t] = 1\n                    a[0, self.start_idx + t - i] = -1",
      "                for i in range(1, min_runtime - 1):\n                    if i > t:\n                        continue\n                    a = sp.lil_matrix((1, op.A.shape[1]))\n                    a[0, self.on_idx + t] = 1\n                    a[0, self.start_idx + t - i] = -1", ["C06"]),
     ("c06_fuel_factor", "eaopack/assets.py", "initial_map['disp_factor'] = -1. / fuel_efficiency", "initial_map['disp_factor'] = -1. * fuel_efficiency", ["C06"]),
